@@ -176,7 +176,8 @@ def gen_spec(rng, *, random_units=True, sl_bias=0.35, rules=None, currents=None,
     spec = {'motor': motor, 'elems': elems, 'rels': rels,
             'load': {'coef': coef, 'unit': rng.choice(list(SI['Torque'].keys())) if ru else 'Nm'},
             'init': {'pos': in_unit(rng, 'AngularPosition', dy(rng, -2, 2), ru),
-                     'speed': in_unit(rng, 'AngularSpeed', dy(rng, -3, 3), ru)},
+                     # (now and then exactly at rest: 0 rpm, 0 deg/s ...)
+                     'speed': in_unit(rng, 'AngularSpeed', dy(rng, -3, 3) if rng.random() > 0.15 else 0.0, ru)},
             'rules': None, 'ops': []}
     angle_init(rng, spec['init'])
     if ru and rng.random() < 0.12:
